@@ -103,6 +103,8 @@ type Reply struct {
 type svc struct {
 	*onet.ServiceProcessor
 	tagA, tagB int
+	mu         sync.Mutex
+	store      map[string][]byte
 }
 
 func byS(s string) error {
@@ -178,8 +180,8 @@ func getD(m *GetD) (*Reply, error) {
 }
 
 func newSvc(c *onet.Context) (onet.Service, error) {
-	s := &svc{ServiceProcessor: onet.NewServiceProcessor(c)}
-	if err := s.RegisterHandlers(wsA, wsB, wsG, s.wsQ, wsN); err != nil {
+	s := &svc{ServiceProcessor: onet.NewServiceProcessor(c), store: map[string][]byte{}}
+	if err := s.RegisterHandlers(wsA, wsB, wsG, s.wsQ, wsN, s.wsPut, s.wsGet); err != nil {
 		return nil, err
 	}
 	if err := s.RegisterStreamingHandler(streamT); err != nil {
@@ -263,6 +265,8 @@ type input struct {
 	Streams [][]streamConv `json:"streams,omitempty"`
 	// Par, if present, makes this a scenario of the repo's own client API against several servers
 	Par *parInput `json:"par,omitempty"`
+	// Store, if present: Put / Get on the storing endpoints, one after the other
+	Store *storeInput `json:"store,omitempty"`
 }
 
 // what one round produced
@@ -1052,6 +1056,9 @@ func childMain() {
 				if inp.Par != nil {
 					return runPar(&inp, emit, &started)
 				}
+				if inp.Store != nil {
+					return runStore(&inp, emit, &started)
+				}
 				return runScenario(&inp, emit, &started)
 			}()
 			if !discard {
@@ -1202,6 +1209,9 @@ func run(raw json.RawMessage) lib.Case {
 	}
 	if in.Par != nil {
 		return parCase(&in, lines, died)
+	}
+	if in.Store != nil {
+		return storeCase(&in, lines, died)
 	}
 	obs := make([]roundOut, len(lines))
 	for i, l := range lines {
@@ -1606,6 +1616,10 @@ func generate(rng *rand.Rand, tier string) []interface{} {
 	for n := 0; n < 4*mul; n++ {
 		ins = append(ins, quitRaceScenario(rng, n))
 	}
+	// (a5) a handler that keeps what it received: Put / Get over kept and single-use connections
+	for n := 0; n < 8*mul; n++ {
+		ins = append(ins, storeScenario(rng, n))
+	}
 
 	// (b) sequential REST histories
 	for n := 0; n < 45*mul; n++ {
@@ -1788,6 +1802,8 @@ func corpus() []interface{} {
 			}},
 			Scripts: [][]int{{0, 1, -1, 2, -1, -1}}},
 		parWitness(),
+		sendToAllWitness(),
+		storeWitness(),
 		reuseWitness(),
 		ackWitness(),
 		quitRaceWitness(),
